@@ -142,6 +142,22 @@ def rule_castle_pre(ctx):
                     names = sorted(p[1] for p in parts if p[0] == "call")
                     same_kind = all(p[2][1] == ("arg", "kind") for p in parts if p[0] == "call")
                     both = names == [B_ + "no_checks_castling", B_ + "no_pieces_between_castling"] and same_kind
+                elif inner[0] == "call" and inner[1] == "std::result::Result::and_then" and len(inner[2]) == 2:
+                    # first.and_then(|()| second(kind)): the second test in a closure that captured `kind`
+                    first, clo = mir.strip_copies(inner[2][0]), inner[2][1]
+                    names = [first[1]] if first[0] == "call" else []
+                    same_kind = first[0] == "call" and first[2][1] == ("arg", "kind")
+                    if clo[0] == "closure" and clo[1] in ix.bodies:
+                        cb = ix.bodies[clo[1]]
+                        r = mir.strip_copies(mir.Sym(cb, ix).local(0))
+                        caps = [mir.strip_copies(x) for x in clo[2]]
+                        if r[0] == "call" and len(r[2]) == 2 and len(cb.blocks) <= 3 and ("arg", "kind") in caps:
+                            # the closure passes on the captured `kind` (capture number i is field i of its environment)
+                            a = mir.strip_refs(r[2][1])
+                            if a[0] == "field" and a[1] == ("arg", "_1") and a[2:] == (str(caps.index(("arg", "kind"))),):
+                                names.append(r[1])
+                                ctx.functions.add(clo[1])
+                    both = sorted(names) == [B_ + "no_checks_castling", B_ + "no_pieces_between_castling"] and same_kind
         ctx.check(rights and both, "castling_ability:three-conjuncts", "Available requires castle_status(kind) == Available && no_pieces_between(kind).and(no_checks(kind)).is_ok()", b.where(avail[0]),
                   bad_what="the Available result is not guarded by all of: the right, the empty path and the unattacked path for the same kind (rights: %s, both path tests: %s)" % (rights, both))
     # which (kind, side to move) pairs are refused before anything else is looked at: per-case constant propagation
